@@ -15,7 +15,8 @@ BITS = {
     "C06": ["c06_downstream_of_failure", "c06_failure_swallowed", "c06_spurious_error", "c06_wrong_error", "c06_not_first_failure"],
     "C07": ["c07_thread_alive_at_return", "c07_inflight_at_return", "c07_start_after_return", "c07_running_after_return",
             "c07_cycle_not_reported", "c07_cycle_ran_something", "c07_deadlock"],
-    "C10": ["c10_inflight_gt_w", "c10_fn_under_lock", "c10_too_many_failures", "c10_none_not_exhaustive", "c10_w1_failure_count"],
+    "C10": ["c10_inflight_gt_w", "c10_fn_under_lock", "c10_too_many_failures", "c10_none_not_exhaustive", "c10_w1_failure_count",
+            "c04_twice"],  # with retry = 1 every call / modified-time query is attempted at most once: a node processed twice breaks that
     "C17": ["c17_start_after_interrupt", "c17_interrupt_swallowed", "c17_interrupt_masked", "c07_thread_alive_at_return",
             "c07_inflight_at_return", "c07_deadlock", "c07_running_after_return", "c07_start_after_return"],
 }
@@ -84,15 +85,16 @@ def catalog(pid, tier):
 
 
 def run_instance(spec):
+    base = {"name": spec["name"], "N": spec["N"], "W": spec["W"], "queries": []}
+    limit = int(os.environ.get("E2_INSTANCE_TIMEOUT", "900" if C.tier() == "quick" else "3600"))
     try:
-        p = subprocess.run([C.PY, os.path.join(C.VERIF, "conc", "instance.py"), json.dumps(spec)], capture_output=True, text=True,
-                           timeout=int(os.environ.get("E2_INSTANCE_TIMEOUT", "3000")))
+        p = subprocess.run([C.PY, os.path.join(C.VERIF, "conc", "instance.py"), json.dumps(spec)], capture_output=True, text=True, timeout=limit)
         line = p.stdout.strip().splitlines()[-1] if p.stdout.strip() else ""
         return json.loads(line)
     except subprocess.TimeoutExpired:
-        return {"name": spec["name"], "status": "timeout", "queries": []}
+        return dict(base, status="timeout", detail=f"no verdict within {limit} s (inconclusive, never a pass)")
     except Exception as e:
-        return {"name": spec["name"], "status": "crash", "detail": f"{e}: {p.stderr[-500:] if 'p' in dir() else ''}", "queries": []}
+        return dict(base, status="crash", detail=f"{e}: {p.stderr[-500:] if 'p' in dir() else ''}")
 
 
 def write_replay(pid, res, trace_key="trace", model_key="model", suffix=""):
@@ -204,7 +206,7 @@ def main(pid):
     cov["solver_s"] = round(solver_s, 1)
     cov["functions_encoded"] = sorted({f for r in results for f in r.get("functions_encoded", [])})
     cov["fused_by_lockset"] = results[0].get("fused") if results else None
-    cov["bounds"] = [f"{r['name']}: N={r['N']} W={r['W']} K={r.get('K')} (K checked as completeness threshold by the unwinding query)" for r in results]
+    cov["bounds"] = [f"{r['name']}: N={r.get('N')} W={r.get('W')} K={r.get('K')} (K checked as completeness threshold by the unwinding query)" for r in results]
     cov["bad_bits_checked"] = BITS[pid]
     cov["exhaustive"] = False
     ev.assumptions = [
